@@ -235,8 +235,17 @@ def run_case(case):
                 out["com_work"] = max(out.get("com_work", 0.0), float(np.abs(Pb).max()), float(np.abs(Lb).max()) if mode == "angular" else 0.0)
                 if not np.abs(P).max() <= 1e-12:
                     prob.append(("com_P", k, float(np.abs(P).max()), f"after the COM removal of step {c['step']} |P| = {np.abs(P).max():.3e} u A/fs"))
-                if mode == "angular" and not np.abs(L).max() <= 1e-12:
-                    prob.append(("com_L", k, float(np.abs(L).max()), f"after the ('angular') removal of step {c['step']} |L| = {np.abs(L).max():.3e} u A^2/fs"))
+                if mode == "angular":
+                    # zeroing L means solving I omega = L; for a (nearly) linear molecule I is (nearly) singular and round-off is
+                    # amplified by cond(I) (eigenvalues below the package's pinv cut-off 1e-10 do not count): measured residual
+                    # 1.2e-11 on HCN after one step (cond 2.8e6, |L| 4.1e-2, i.e. 0.5 u cond |L|); bound 1e-12 + 64 u cond |L_before|
+                    r_ = xb - (mass[:, None] * xb).sum(0) / mass.sum()
+                    ev = np.linalg.eigvalsh((mass * (r_ * r_).sum(1)).sum() * np.eye(3) - np.einsum("a,ai,aj->ij", mass, r_, r_))
+                    ev = ev[ev > 1e-10]
+                    cond = float(ev.max() / ev.min()) if len(ev) else 1.0
+                    tolL = 1e-12 + 64 * 2.2e-16 * cond * float(np.abs(Lb).max())
+                    if not np.abs(L).max() <= tolL:
+                        prob.append(("com_L", k, float(np.abs(L).max()), f"after the ('angular') removal of step {c['step']} |L| = {np.abs(L).max():.3e} u A^2/fs (before {np.abs(Lb).max():.3e}, cond(I) = {cond:.2e}, tolerance {tolL:.2e})"))
                 if not abs(ea - eb) <= 1e-12 * eb:
                     prob.append(("com_Ek", k, float(abs(ea - eb) / eb), f"COM removal of step {c['step']} changed the kinetic energy by {abs(ea - eb) / eb:.3e} relative"))
                 # the row written for that step is the state after the removal
@@ -344,14 +353,15 @@ def evaluate(chk, cases, verbose=False):
     res = pmap(run_case, cases, chunk=1, timeout=600, progress="C13 cases")
     nprob = 0
     groups = {}
+    ok = []
     for c, r in zip(cases, res):
         k = _key(c)
         if is_timeout(r) or is_error(r):
             nprob += 1
             if chk:
-                chk.harness_error(f"{k}: case did not complete: {str(r)[:400]}")
+                chk.harness_error(f"{k}: case did not complete: {str(r)[-400:]}")
             else:
-                print("  HARNESS", k, str(r)[:400])
+                print("  HARNESS", k, str(r)[-400:])
             continue
         if r["error"]:
             why = _expected_rejection(c, r["error"])
@@ -370,10 +380,45 @@ def evaluate(chk, cases, verbose=False):
             else:
                 print("  RAISED", k, r["error"])
             continue
+        r["rel"] = []
         groups.setdefault(_group_key(c), []).append((c, r))
+        ok.append((c, r))
+    # seeding: relations between runs of one group (same everything but seed / history)
+    ncmp = {"history": 0, "seed_pairs": 0}
+    for gk, members in groups.items():
+        base = {}
+        for c, r in members:
+            if not c["hist"]:
+                base[c["seed"]] = (c, r)
+        for c, r in members:
+            if c["hist"] and c["seed"] in base:
+                b = base[c["seed"]][1]
+                ncmp["history"] += 1
+                r["compared"] += 1
+                same = r["digest"] == b["digest"]
+                r["rel"].append("hist-same" if same else "hist-differs")
+                if not same:
+                    d0 = max(float(np.abs(a - bb).max()) for a, bb in zip(r["v0"], b["v0"]))
+                    r["problems"].append(("seed_history", -1, d0, f"same seed, but the outputs differ from the run without prior RNG history (step-0 velocities differ by {d0:.3e} A/fs)"))
+        seeds = sorted(base)
+        for i in range(len(seeds)):
+            for j in range(i + 1, len(seeds)):
+                ci, ri = base[seeds[i]]
+                cj, rj = base[seeds[j]]
+                if ci["temp"] <= 0 or ci["user"] is not None:
+                    continue
+                ncmp["seed_pairs"] += 1
+                ri["compared"] += 1
+                rj["compared"] += 1
+                same = all(np.array_equal(a, b) for a, b in zip(ri["v0"], rj["v0"]))
+                rj["rel"].append(f"seed{seeds[i]}-" + ("same" if same else "differs"))
+                if same:
+                    rj["problems"].append(("seed_no_effect", -1, 0.0, f"seeds {seeds[i]} and {seeds[j]} give identical step-0 velocities", {"other_seed": seeds[i]}))
+    for c, r in ok:
+        k = _key(c)
         if chk:
             chk.excluded += r.get("excluded", 0)
-            chk.case(k, nontrivial=r["compared"] > 0, outcome=r["sig"])
+            chk.case(k, nontrivial=r["compared"] > 0, outcome=r["sig"] + "|" + ",".join(r["rel"]))
             if r.get("com_work", 0.0) > 1e-9:
                 chk.extra["com_removals_with_work"] = chk.extra.get("com_removals_with_work", 0) + 1
         for p_ in r["problems"]:
@@ -384,44 +429,9 @@ def evaluate(chk, cases, verbose=False):
                 chk.violation(_desc(c, o, kk, mag, extra), f"{k} mol {kk}: {msg}", replay=c)
             else:
                 print("  ", k, "mol", kk, msg)
-    # seeding: relations between runs of one group
-    for gk, members in groups.items():
-        base = {}
-        for c, r in members:
-            if not c["hist"]:
-                base[c["seed"]] = (c, r)
-        for c, r in members:
-            if c["hist"] and c["seed"] in base:
-                b = base[c["seed"]][1]
-                if chk:
-                    chk.case(_key(c) + "|vs-no-history", nontrivial=True, outcome="same" if r["digest"] == b["digest"] else "differs")
-                    chk.evaluations -= 1  # a comparison, not another execution
-                if r["digest"] != b["digest"]:
-                    nprob += 1
-                    d0 = max(float(np.abs(a - bb).max()) for a, bb in zip(r["v0"], b["v0"]))
-                    msg = f"{_key(c)}: same seed, but the outputs differ from the run without prior RNG history (step-0 velocities differ by {d0:.3e} A/fs)"
-                    if chk:
-                        chk.violation(_desc(c, "seed_history", -1, d0), msg, replay=c)
-                    else:
-                        print("  ", msg)
-        seeds = sorted(base)
-        for i in range(len(seeds)):
-            for j in range(i + 1, len(seeds)):
-                ci, ri = base[seeds[i]]
-                cj, rj = base[seeds[j]]
-                if ci["temp"] <= 0 or ci["user"] is not None:
-                    continue
-                same = all(np.array_equal(a, b) for a, b in zip(ri["v0"], rj["v0"]))
-                if chk:
-                    chk.case(gk + f"|seed{seeds[i]}-vs-seed{seeds[j]}", nontrivial=True, outcome="same" if same else "differs")
-                    chk.evaluations -= 1
-                if same:
-                    nprob += 1
-                    msg = f"{gk}: seeds {seeds[i]} and {seeds[j]} give identical step-0 velocities"
-                    if chk:
-                        chk.violation(_desc(ci, "seed_no_effect", -1, 0.0, {"other_seed": seeds[j]}), msg, replay=ci)
-                    else:
-                        print("  ", msg)
+    if chk:
+        chk.extra["history_comparisons"] = chk.extra.get("history_comparisons", 0) + ncmp["history"]
+        chk.extra["seed_pair_comparisons"] = chk.extra.get("seed_pair_comparisons", 0) + ncmp["seed_pairs"]
     return nprob
 
 
@@ -446,5 +456,5 @@ def replay(payload):
     if c["hist"]:
         cases.append(dict(c, hist=[]))
     if payload.get("desc", {}).get("oracle") == "seed_no_effect":
-        cases.append(dict(c, seed=payload["desc"]["other_seed"]))
+        cases.append(dict(c, seed=payload["desc"]["other_seed"], hist=[]))
     return evaluate(None, cases, verbose=True) == 0
